@@ -796,7 +796,7 @@ func c12R3(c *Ctx) {
 			continue
 		}
 		c.Ob("C12.R3", name+"/coverage", fd.Pos()).Check(len(seen) == 7, "all seven kinds are reported, each on its own path; every other path yields TypeUndefined", itoa(len(seen))+" kinds are reported, expected 7")
-		for _, m := range ifaceMethods(ct.Iface) {
+		for _, m := range pinnedMethods(ct) {
 			if !strings.HasPrefix(m.Name(), "Get") || m.Name() == "Get" || m.Name() == "GetTF" {
 				continue
 			}
@@ -1008,6 +1008,26 @@ func c12R4(c *Ctx) {
 				}
 				if lk, ok := x.Tuple.(*ssa.Lookup); ok && a.isSpine(lk.X.Type()) {
 					return true, "element of a spine"
+				}
+				// item, ok := recv.find(key): a result of a private helper with several results — a producer when the helper returns
+				// one there on every return
+				if call, ok := x.Tuple.(*ssa.Call); ok {
+					if cal := call.Call.StaticCallee(); cal != nil && a.inPkg(cal) && cal.Object() != nil && !cal.Object().Exported() && x.Index < cal.Signature.Results().Len() {
+						rets := 0
+						for _, b := range cal.Blocks {
+							for _, in := range b.Instrs {
+								if r, ok := in.(*ssa.Return); ok && x.Index < len(r.Results) {
+									rets++
+									if ok, why := rec(r.Results[x.Index]); !ok {
+										return false, why + " (result of " + cal.Name() + ")"
+									}
+								}
+							}
+						}
+						if rets > 0 {
+							return true, "result #" + itoa(x.Index) + " of the private helper " + cal.Name()
+						}
+					}
 				}
 			case *ssa.Phi:
 				for _, e := range x.Edges {
